@@ -89,3 +89,32 @@ Proof.
     + exfalso. apply Hd. auto.
     + unfold nblocks in Hb. simpl in Hb. lia.
 Qed.
+
+(** the executable results ([run_with] with the proved fuel) meet the path-based solutions:
+    the form in which C06 / C08 / C10 consume the analyses *)
+Lemma liveness_correct_lemma : forall incl g I, wf_cfg g = true -> forall sched b x, b < nblocks g ->
+  (~ In x I -> (In x (getv (liveness Repaired incl g I sched) b) <-> live_on_path incl g x b)) /\
+  (In x I -> (~ In x (getv (liveness Repaired incl g I sched) b) <-> dead_on_all_paths incl g x b)).
+Proof.
+  intros incl g I W sched b x Hb. unfold liveness.
+  destruct (live_run_terminates incl g I W sched) as [_ R].
+  apply (live_terminal_char incl g I W _ R b x Hb).
+Qed.
+
+Lemma assignment_correct_lemma : forall g D0 M0, wf_cfg g = true -> forall sched b x, b < nblocks g ->
+  (In x (getv (fst (assignment Repaired g D0 M0 sched)) b) <->
+     In x (all_vars g D0) /\ ~ unassigned_before g D0 x b) /\
+  (~ In x M0 -> (In x (getv (snd (assignment Repaired g D0 M0 sched)) b) <-> assigned_before g D0 x b)) /\
+  (In x M0 -> (~ In x (getv (snd (assignment Repaired g D0 M0 sched)) b) <-> never_assigned_before g D0 x b)).
+Proof.
+  intros g D0 M0 W sched b x Hb. unfold assignment. simpl.
+  destruct (ass_run_terminates g D0 M0 W sched) as [_ R].
+  apply (ass_terminal_char g D0 M0 W _ R b x Hb).
+Qed.
+
+Lemma cfg_analyze_eq : forall g D0 M0 inout s1 s2,
+  cfg_analyze Repaired g D0 M0 inout s1 s2 =
+  (liveness Repaired true (with_exit_uses g inout) inout s1,
+   fst (assignment Repaired (with_exit_uses g inout) D0 M0 s2),
+   snd (assignment Repaired (with_exit_uses g inout) D0 M0 s2)).
+Proof. intros. unfold cfg_analyze, assignment. reflexivity. Qed.
